@@ -30,6 +30,9 @@
 #include "stream.h"
 #include "values.h"
 #include "io.h"
+#include "node.h"
+#include "collection.h"
+#include "layout.h"
 #include "mc.hpp"
 
 using namespace mc;
@@ -37,7 +40,7 @@ using mpt::metatype;
 
 const char *mc_id = "C15";
 const char *mc_rule = "job 'refcount': all raise/lower sequences (C and C++ entry points) from counter presets 0,1,2,MAX-1,MAX; other jobs: BFS over all histories "
-                      "(canonical-state dedupe) of new/addref/unref/clone/assign-through-conversion/reference-traits/reference<T>/array-clone/detach/array-set,slice,insert,append/defer "
+                      "(canonical-state dedupe) of new/addref/unref/clone/assign-through-conversion/reference-traits/reference<T>/array-clone/detach/array-set,slice,insert,append/defer+reply/rawdata advance+modify/node+item-group containers "
                       "operations over <=3 handle slots and <=3 objects of the job's object kind(s), every reached state drained to quiescence; "
                       "nontrivial = distinct transitions that drop or replace a held reference, act on a shared object (count>1) or hit a counter limit";
 
@@ -65,7 +68,7 @@ struct CountMeta : public metatype {
 	}
 	void unref() override { if (destroyed) { ++after; return; } ++unrefs; if (!--cnt) destroyed = true; }
 	uintptr_t addref() override { if (destroyed) { ++after; return 0; } if (cnt == UMAX) return 0; ++addrefs; return ++cnt; }
-	metatype *clone() const override { return new CountMeta; }
+	metatype *clone() const override { int d = lib_depth; lib_depth = 0; CountMeta *c = new CountMeta; lib_depth = d; return c; }   // harness memory stays out of the ledger
 };
 // C++ reference<T>::type over a harness base class
 struct PBase : public metatype {
@@ -84,10 +87,12 @@ struct SendState { int calls; bool fail; };
 static int send_cb(void *ptr, const mpt::reply_data *, const mpt::message *) { SendState *s = (SendState *) ptr; ++s->calls; return s->fail ? -1 : 0; }
 
 // ---------------------------------------------------------------- object world shared by both systems
-enum Kind { K_BUF, K_REFBUF, K_CNT, K_GENINFO, K_METABUF, K_REPLY, K_RAW, K_GENI, K_GENR, K_CXX, K_STREAM, K_IOBUF, NKIND };
-static const char *kname[] = { "buffer", "refbuffer", "counting", "geninfo", "metabuffer", "reply", "rawdata", "generic", "generic-ref", "cxxtype", "stream", "iobuffer" };
-static bool kcountable(int k) { return k != K_GENINFO && k != K_METABUF; }
+enum Kind { K_BUF, K_REFBUF, K_CNT, K_GENINFO, K_METABUF, K_REPLY, K_RAW, K_GENI, K_GENR, K_CXX, K_STREAM, K_IOBUF, K_NODE, K_GROUP, NKIND };
+static const char *kname[] = { "buffer", "refbuffer", "counting", "geninfo", "metabuffer", "reply", "rawdata", "generic", "generic-ref", "cxxtype", "stream", "iobuffer", "node", "item-group" };
+static bool kcountable(int k) { return k != K_GENINFO && k != K_METABUF && k != K_NODE && k != K_GROUP; }
 static bool kpokeable(int k) { return kcountable(k) && k != K_REFBUF && k != K_GENR && k != K_IOBUF; }
+static long g_reply_ctr_off = -(long) sizeof(void *);   // counter position relative to the metatype pointer (refined by the probe)
+static int g_reply_shareable = -1;   // does a reply context hand out further metatype references (probed on a throw-away instance)
 
 struct Obj {
 	int kind; void *ptr; const void *block;
@@ -124,12 +129,13 @@ struct World {
 	bool bad, nontrivial;
 	std::vector<CountMeta *> owned; std::vector<int *> flags; std::vector<int> fds;
 	static unsigned nsys;
+	size_t base;   // tracked blocks alive before this system allocated anything
 
 	World(Run &run) : r(run), bad(false), nontrivial(false)
 	{
 		asan_init();
 		if (!(++nsys & 255)) ledger_reset();   // no tracked object is alive between two systems
-		asan_bad(); sig = "new|none"; namer = 0; dstep = 0; darg = 0;
+		asan_bad(); sig = "new|none"; namer = 0; dstep = 0; darg = 0; base = ledger_live();
 	}
 	~World()
 	{
@@ -138,7 +144,7 @@ struct World {
 		for (int fd : fds) close(fd);
 	}
 	uintptr_t count(int o) const { return objs[o].handles + objs[o].phantom; }
-	bool can_addref(int o) const { return o >= 0 && !objs[o].dead && kcountable(objs[o].kind) && count(o) != 0 && count(o) != UMAX; }
+	bool can_addref(int o) const { return o >= 0 && !objs[o].dead && kcountable(objs[o].kind) && !(objs[o].kind == K_REPLY && g_reply_shareable == 0) && count(o) != 0 && count(o) != UMAX; }
 	void retain(int o) { ++objs[o].handles; ++objs[o].ma; }
 	void kill(int o)
 	{
@@ -160,7 +166,7 @@ struct World {
 		switch (b.kind) {
 		case K_BUF: case K_REFBUF: return (uintptr_t *) b.block;
 		case K_CNT: return &b.cm->cnt;
-		case K_REPLY: return (uintptr_t *) ((char *) b.ptr - sizeof(void *));
+		case K_REPLY: return (uintptr_t *) ((char *) b.ptr + g_reply_ctr_off);
 		case K_RAW: return (uintptr_t *) ((char *) b.ptr + 2 * sizeof(void *));
 		case K_GENI: case K_GENR: return &((metatype::generic *) b.ptr)->_ref._val;
 		case K_CXX: return &((CxxT *) b.ptr)->_ref._val;
@@ -234,7 +240,7 @@ struct World {
 };
 unsigned World::nsys = 0;
 
-struct Counters { uint64_t nontrivial, refused, limit, replaced, shared_op, destroyed, nonclonable, cleared, spurious, drained, refused_shared, traits_mismatch; };
+struct Counters { uint64_t nontrivial, refused, limit, replaced, shared_op, destroyed, nonclonable, cleared, spurious, drained, refused_shared, traits_mismatch, reply_checked, group_items, quiescent; };
 static Counters C;   // only the last operation of a transition counts: the BFS restores the snapshot after replaying a prefix
 
 // ---------------------------------------------------------------- job configuration
@@ -242,7 +248,7 @@ struct OpDef { int code, a, b, c; };
 struct Cfg {
 	std::string name;
 	std::vector<int> kinds;
-	bool conv, cxx, traits, clone, reply, refbuf, genconv;
+	bool conv, cxx, traits, clone, reply, refbuf, genconv, inref, group, rdops;
 	int nslots, cap, rawcap, depth;
 	std::vector<OpDef> ops;
 };
@@ -505,10 +511,12 @@ struct BufSys : World {
 
 // ================================================================= metatype references
 enum { M_NEW, M_CONVREF, M_CONVPTR, M_CONVNULL, M_GENCONV, M_CXXASSIGN, M_CXXMOVE, M_CXXCOPY, M_CXXSET, M_CXXDETACH, M_CXXDTOR, M_RINIT, M_RFINI,
-       M_ADDREF, M_UNREFRAW, M_CLONE, M_ARM, M_DEFER, M_DREPLY, M_RBPUT, M_RBCLONE, M_RBCLEAR, M_RBDETACH };
+       M_ADDREF, M_UNREFRAW, M_CLONE, M_ARM, M_DEFER, M_DREPLY, M_RBPUT, M_RBCLONE, M_RBCLEAR, M_RBDETACH,
+       M_CREPLY, M_RDADVANCE, M_RDMODIFY, M_NODEASSIGN, M_NODESET, M_NODEDROP, M_ADDITEMS, M_GRPAPPEND, M_GRPCLEAR, M_GRPDROP };
 static const char *mopn[] = { "new", "value_convert(MetaRef->MetaRef)", "value_convert(MetaPtr->MetaRef)", "value_convert(MetaRef->MetaRef,NULL)", "generic.convert(MetaRef)",
        "reference::operator=", "reference::operator=(&&)", "reference(const reference&)", "reference::set_instance", "reference::detach", "~reference", "reference_traits.init", "reference_traits.fini",
-       "addref", "unref", "clone", "reply_set", "defer", "deferred.reply", "refarray.set", "refarray.clone", "refarray.clone(NULL)", "refarray.detach" };
+       "addref", "unref", "clone", "reply_set", "defer", "deferred.reply", "refarray.set", "refarray.clone", "refarray.clone(NULL)", "refarray.detach",
+       "context.reply", "rawdata.advance", "rawdata.modify", "node=reference", "node.set_metatype", "node_destroy", "add_items(group,node)", "group.append", "group.clear", "group.unref" };
 
 struct Deferred { mpt::reply_context_detached *h; const void *block; int ctx; bool live; };
 
@@ -517,7 +525,8 @@ struct MetaSys : World {
 	Arr rb[2]; int rbo[2];
 	std::vector<Deferred> defs;
 	SendState send;
-	MetaSys(Run &run) : World(run), created(0)
+	int nodeo, grpo;   // library containers of metatype references (object indices, -1: not created yet)
+	MetaSys(Run &run) : World(run), created(0), nodeo(-1), grpo(-1)
 	{
 		namer = &MetaSys::opname;
 		for (int i = 0; i < 3; ++i) { sl[i] = 0; so[i] = -1; }
@@ -531,6 +540,10 @@ struct MetaSys : World {
 		if (d.code == M_NEW) return fmt("new %s%s -> slot %d", kname[d.b], d.c == 1 ? "(count=MAX-1)" : (d.c == 2 ? "(count=2^32+1)" : ""), d.a);
 		return fmt("%s(%d,%d)", mopn[d.code], d.a, d.b);
 	}
+	const mpt::type_traits *reftraits() const { return cfg.inref ? mpt::mpt_input_reference_traits() : mpt::mpt_meta_reference_traits(); }
+	mpt::rawdata *rawif(int o) const { return (mpt::rawdata *) ((char *) objs[o].ptr + sizeof(void *)); }   // RawData { _mt, _rd, ... }
+	int metahandles(int o) const { int n = objs[o].raw; for (int i = 0; i < cfg.nslots; ++i) n += so[i] == o; return n; }
+	bool usable(int o) const { return o >= 0 && !objs[o].dead; }
 	int livedefs() const { int n = 0; for (const Deferred &d : defs) n += d.live; return n; }
 	int nbufs() const { int n = 0; for (const Obj &b : objs) n += b.kind == K_REFBUF; return n; }
 	bool enabled(int i) const
@@ -556,6 +569,14 @@ struct MetaSys : World {
 		case M_RBCLONE: return rbo[t] >= 0;
 		case M_RBCLEAR: return true;
 		case M_RBDETACH: return rbo[s] >= 0 && (count(rbo[s]) == 1 || nbufs() < 3);
+		case M_CREPLY: return so[s] >= 0 && objs[so[s]].kind == K_REPLY && objs[so[s]].armed;
+		case M_RDADVANCE: case M_RDMODIFY: return so[s] >= 0 && objs[so[s]].kind == K_RAW;
+		case M_NODEASSIGN: return nodeo < 0 || !objs[nodeo].dead;
+		case M_NODESET: return (nodeo < 0 || !objs[nodeo].dead) && s < (int) objs.size() && !objs[s].dead && objs[s].raw > 0 && objs[s].kind >= K_CNT;
+		case M_NODEDROP: return usable(nodeo);
+		case M_ADDITEMS: return usable(nodeo) && (grpo < 0 || (!objs[grpo].dead && objs[grpo].holds.size() < 2));
+		case M_GRPAPPEND: return (grpo < 0 || (!objs[grpo].dead && objs[grpo].holds.size() < 2)) && s < (int) objs.size() && !objs[s].dead && objs[s].raw > 0 && objs[s].kind >= K_CNT;
+		case M_GRPCLEAR: case M_GRPDROP: return usable(grpo);
 		}
 		return false;
 	}
@@ -567,11 +588,14 @@ struct MetaSys : World {
 			const Obj &b = objs[o];
 			if (b.dead) { s += fmt("o%zu:dead ", o); continue; }
 			s += fmt("o%zu:%s,%s,raw%d,%s%s[", o, kname[b.kind], cstr(o).c_str(), b.raw, b.phantom ? "hi" : "n", b.armed ? ",armed" : "");
+			if (b.kind == K_REPLY) s += *(void *const *) b.block ? "connected;" : "disconnected;";   // reply.send, first member of the context
+			if (cfg.rdops && b.kind == K_RAW) { mpt::rawdata *rd = rawif((int) o); s += fmt("st%ld,d%ld,d%ld;", rd->stage_count(), rd->dimension_count(0), rd->dimension_count(1)); }
 			for (int e : b.holds) s += fmt("%d,", e);
 			s += "] ";
 		}
 		for (size_t i = 0; i < defs.size(); ++i) s += defs[i].live ? fmt("d%zu=%d ", i, defs[i].ctx) : fmt("d%zu=- ", i);
 		if (cfg.refbuf) s += fmt("rb=%d,%d nb=%d ", rbo[0], rbo[1], nbufs());
+		if (cfg.group) s += fmt("node=%d grp=%d ", nodeo, grpo);
 		s += fmt("created=%d", created);
 		return s;
 	}
@@ -654,8 +678,20 @@ struct MetaSys : World {
 				}
 			}
 			break; }
-		case K_REPLY: mt = LIB(mpt::mpt_reply_deferrable(2, send_cb, &send)); if (mt) o = add(kind, mt, find_block(mt)); break;
-		case K_RAW: mt = LIB(mpt::mpt_rawdata_create(-1)); if (mt) o = add(kind, mt, find_block(mt)); break;
+		case K_REPLY:
+			if (g_reply_shareable < 0) {   // design decision of the implementation: is the metatype handle of a reply context shareable at all
+				metatype *p = LIB(mpt::mpt_reply_deferrable(2, 0, 0));
+				if (!p) return -1;
+				const void *blk = find_block(p);
+				size_t nw = blk ? (size_t) (((char *) p - (const char *) blk) / sizeof(uintptr_t)) + 1 : 0;
+				std::vector<uintptr_t> snap((const uintptr_t *) blk, (const uintptr_t *) blk + nw);
+				g_reply_shareable = LIB(p->addref()) ? 1 : 0;
+				for (size_t k = 0; k < nw; ++k) if (snap[k] == 1 && ((const uintptr_t *) blk)[k] == 2) g_reply_ctr_off = (long) ((const char *) blk + k * sizeof(uintptr_t) - (char *) p);
+				if (g_reply_shareable) LIB((p->unref(), 0));
+				LIB((p->unref(), 0));
+			}
+			mt = LIB(mpt::mpt_reply_deferrable(2, send_cb, &send)); if (mt) o = add(kind, mt, find_block(mt)); break;
+		case K_RAW: mt = LIB(mpt::mpt_rawdata_create(cfg.rdops ? 2 : -1)); if (mt) o = add(kind, mt, find_block(mt)); break;
 		case K_GENI: { int32_t v = 42; mt = LIB(metatype::generic::create('i', &v)); if (mt) o = add(kind, mt, find_block(mt)); break; }
 		case K_GENR: {
 			int t = (s + 1) % cfg.nslots, nw = so[t];
@@ -705,7 +741,7 @@ struct MetaSys : World {
 		nontrivial = false;
 		hist.push_back(i);
 		r.hint(mopn[d.code]);
-		const mpt::type_traits *rt = mpt::mpt_meta_reference_traits();
+		const mpt::type_traits *rt = reftraits();
 		switch (d.code) {
 		case M_NEW: {
 			sig = std::string("new|") + kname[t];
@@ -778,7 +814,7 @@ struct MetaSys : World {
 			break; }
 		case M_RINIT: {
 			int nw = so[t];
-			sig = std::string("reference_traits.init|") + cls(-1, nw);
+			sig = std::string(cfg.inref ? "input_reference_traits.init|" : "reference_traits.init|") + cls(-1, nw);
 			Calls cn = calls(nw), co = calls(-1);
 			sl[s] = 0;
 			int ret = LIB(rt->init(&sl[s], &sl[t]));
@@ -788,7 +824,7 @@ struct MetaSys : World {
 			break; }
 		case M_RFINI: {
 			int old = so[s];
-			sig = std::string("reference_traits.fini|") + cls(old, -1);
+			sig = std::string(cfg.inref ? "input_reference_traits.fini|" : "reference_traits.fini|") + cls(old, -1);
 			LIB((rt->fini(&sl[s]), 0)); sl[s] = 0;
 			if (old >= 0) { release(old); so[s] = -1; }
 			break; }
@@ -798,8 +834,11 @@ struct MetaSys : World {
 			uintptr_t *cp = counter(o); uintptr_t before = cp ? *cp : 0;
 			uintptr_t ret = LIB(sl[s]->addref());
 			if (can_addref(o)) {
-				retain(o); ++objs[o].raw; if (count(o) > 2) nontrivial = true;
-				if (!ret) { checkall(); return fail("wrong-return", "addref reported failure although the count can be raised"); }
+				if (!ret) {   // a refusal is not promised against: nothing may have changed
+					++C.spurious;
+					if (cp && *cp != before) return fail("refused-but-changed", "addref reported failure but changed the counter");
+				}
+				else { retain(o); ++objs[o].raw; if (count(o) > 2) nontrivial = true; }
 			} else {
 				++C.limit; ++C.refused; nontrivial = true;
 				if (ret || (cp && *cp != before)) return fail("accepted-at-limit", fmt("addref at count %s returned %llu and left the counter %s", cstr(o).c_str(), (unsigned long long) ret, cp && *cp != before ? "changed" : "unchanged"));
@@ -844,19 +883,20 @@ struct MetaSys : World {
 			break; }
 		case M_DEFER: {
 			int o = so[s];
-			sig = std::string("defer|reply") + (can_addref(o) ? "" : ",at-limit") + (objs[o].armed ? "" : ",no-request");
+			bool room = count(o) != 0 && count(o) != UMAX;   // deferred handles are counted internally, whether or not the metatype handle is shareable
+			sig = std::string("defer|reply") + (room ? "" : ",at-limit") + (objs[o].armed ? "" : ",no-request");
 			mpt::reply_context *rc = 0;
 			LIB(sl[s]->convert(mpt::TypeReplyPtr, &rc));
 			if (!rc) { r.incomplete("reply context interface not available"); return false; }
 			uintptr_t before = *counter(o);
 			mpt::reply_context_detached *h = LIB(rc->defer());
-			if (!can_addref(o)) { ++C.limit; nontrivial = true; }
+			if (!room) { ++C.limit; nontrivial = true; }
 			if (!h) {
 				++C.refused;
 				if (*counter(o) != before) return fail("refused-but-changed", "defer returned no handle but changed the reference count");
 				break;
 			}
-			if (!can_addref(o)) return fail("accepted-at-limit", "defer handed out a handle although the context count cannot be raised");
+			if (!room) return fail("accepted-at-limit", "defer handed out a handle although the context count cannot be raised");
 			Deferred df; df.h = h; df.block = find_block(h); df.ctx = o; df.live = true;
 			size_t slot = 0;
 			while (slot < defs.size() && defs[slot].live) ++slot;   // a finished (and verified freed) entry is reused: the table stays bounded
@@ -869,14 +909,17 @@ struct MetaSys : World {
 			static const uint8_t body[2] = {0, 0};
 			mpt::message msg(body, sizeof body);
 			send.fail = t == 2;
+			int calls = send.calls;
+			bool owner = metahandles(df.ctx) > 0;   // the context is still held through its metatype interface
 			int ret = LIB(df.h->reply(t ? &msg : 0));
 			send.fail = false;
+			if (t && owner) { ++C.reply_checked; if (send.calls != calls + 1) return fail("not-delivered", fmt("the send callback ran %d time(s) although the context is still referenced through its metatype interface (an earlier non-final unref disabled it)", send.calls - calls)); }
 			if (t && ret < 0) { ++C.refused; break; }   // failed reply keeps the handle
 			df.live = false; release(df.ctx);
 			break; }
 		case M_RBPUT: {
 			int nw = so[s], b = rbo[0];
-			sig = std::string("refarray.set|") + (b < 0 ? "empty" : (count(b) > 1 ? "shared" : "unique")) + (nw < 0 ? ",new=none" : (can_addref(nw) ? ",new=other" : ",new=unretainable"));
+			sig = std::string(cfg.inref ? "input-refarray.set|" : "refarray.set|") + (b < 0 ? "empty" : (count(b) > 1 ? "shared" : "unique")) + (nw < 0 ? ",new=none" : (can_addref(nw) ? ",new=other" : ",new=unretainable"));
 			size_t n = b < 0 ? 0 : objs[b].holds.size();
 			mpt::buffer *ob = rb[0]._buf;
 			void *p = LIB(mpt::mpt_array_set(A(&rb[0]), rt, sizeof(void *), &sl[s], (long) n));
@@ -902,7 +945,7 @@ struct MetaSys : World {
 		case M_RBDETACH: {
 			int b = rbo[s];
 			bool shared = count(b) > 1;
-			sig = std::string("refarray.detach|") + (shared ? "shared" : "unique");
+			sig = std::string(cfg.inref ? "input-refarray.detach|" : "refarray.detach|") + (shared ? "shared" : "unique");
 			mpt::buffer *ob = rb[s]._buf;
 			mpt::buffer *nb = LIB(ob->detach(ob->_used));
 			if (!nb) { ++C.spurious; break; }
@@ -912,6 +955,90 @@ struct MetaSys : World {
 				++C.shared_op; nontrivial = true;
 				int c = copy_refbuf(b, nb); release(b); rbo[s] = c; rb[s]._buf = nb;
 			}
+			break; }
+		case M_CREPLY: {
+			int o = so[s];
+			sig = "context.reply|reply";
+			mpt::reply_context *rc = 0;
+			LIB(sl[s]->convert(mpt::TypeReplyPtr, &rc));
+			if (!rc) { r.incomplete("reply context interface not available"); return false; }
+			static const uint8_t body[2] = {0, 0};
+			mpt::message msg(body, sizeof body);
+			int calls = send.calls;
+			LIB(rc->reply(&msg));
+			objs[o].armed = false;
+			++C.reply_checked; nontrivial = true;
+			// the object is held through (at least) this handle: it must still do its work
+			if (send.calls != calls + 1) { checkall(); return fail("not-delivered", fmt("the send callback ran %d time(s) for a reply through a held reference (an earlier non-final unref disabled the context)", send.calls - calls)); }
+			break; }
+		case M_RDADVANCE: {
+			sig = "rawdata.advance|rawdata";
+			LIB(rawif(so[s])->advance());
+			break; }
+		case M_RDMODIFY: {
+			sig = "rawdata.modify|rawdata";
+			double v = 1.5; mpt::value val; val.set('d', &v);
+			if (LIB(rawif(so[s])->modify(0, val, 0)) < 0) ++C.spurious;
+			break; }
+		case M_NODEASSIGN: case M_NODESET: {
+			if (nodeo < 0) { mpt::node *n = LIB(mpt::node::create("n0")); if (!n) { r.incomplete("node creation failed"); return false; } nodeo = add(K_NODE, n, find_block(n)); objs[nodeo].holds.push_back(-1); }
+			mpt::node *n = (mpt::node *) objs[nodeo].ptr;
+			int old = objs[nodeo].holds[0], nw;
+			if (d.code == M_NODEASSIGN) {
+				nw = so[s];
+				sig = std::string("node-assign|") + cls(old, nw);
+				Calls co = calls(old), cn = calls(nw);
+				LIB((*n = ref(s), 0));
+				if (nw >= 0 && !can_addref(nw)) { ++C.limit; ++C.cleared; nontrivial = true; nw = -1; }
+				if (nw >= 0) retain(nw);
+				objs[nodeo].holds[0] = nw;
+				if (old >= 0) { release(old); ++C.replaced; }
+				if (!checkall() || (nw >= 0 && !once(old, nw, co, cn))) return false;
+			} else {
+				nw = s;
+				sig = std::string("node-set|") + cls(old, nw);
+				LIB((n->set_metatype((metatype *) objs[nw].ptr), 0));
+				--objs[nw].raw; objs[nodeo].holds[0] = nw;
+				if (old >= 0) { release(old); ++C.replaced; }
+			}
+			if (n->_meta != (nw >= 0 ? (metatype *) objs[nw].ptr : 0)) return fail("wrong-target", "node does not refer to the assigned object");
+			break; }
+		case M_NODEDROP: {
+			sig = "node_destroy|" + cls(objs[nodeo].holds[0], -1);
+			LIB(mpt::mpt_node_destroy((mpt::node *) objs[nodeo].ptr));
+			release(nodeo);
+			break; }
+		case M_ADDITEMS: case M_GRPAPPEND: {
+			if (grpo < 0) { mpt::item_group *g = LIB(new mpt::item_group); grpo = add(K_GROUP, static_cast<metatype *>(g), find_block(g)); }
+			mpt::item_group *g = static_cast<mpt::item_group *>((metatype *) objs[grpo].ptr);
+			size_t before = g->items().size();
+			if (d.code == M_ADDITEMS) {
+				int x = objs[nodeo].holds[0];
+				sig = std::string("add_items|") + (x < 0 ? "node=empty" : (can_addref(x) ? "node=refcounted" : "node=unretainable"));
+				Calls cx = calls(x), none = calls(-1);
+				LIB(mpt::add_items(*static_cast<metatype *>(g), (mpt::node *) objs[nodeo].ptr, 0, 0));
+				size_t now = g->items().size();
+				// the group shows whether it took an item: one more item = one more reference to the node's object
+				if (now == before + 1 && x >= 0) { retain(x); objs[grpo].holds.push_back(x); ++C.group_items; nontrivial = true; if (!checkall() || !once(-1, x, none, cx)) return false; }
+				else if (now != before) return fail("wrong-target", fmt("group went from %zu to %zu items", before, now));
+				else if (x >= 0 && can_addref(x)) ++C.spurious;
+			} else {
+				sig = "group.append|raw-reference";
+				if (LIB(g->append(0, (metatype *) objs[s].ptr)) < 0) { ++C.spurious; break; }
+				--objs[s].raw; objs[grpo].holds.push_back(s); ++C.group_items;   // the group took over the caller's reference
+			}
+			break; }
+		case M_GRPCLEAR: {
+			sig = "group.clear|items";
+			mpt::item_group *g = static_cast<mpt::item_group *>((metatype *) objs[grpo].ptr);
+			LIB(g->clear(0));
+			std::vector<int> h; h.swap(objs[grpo].holds);
+			for (int e : h) if (e >= 0) release(e);
+			break; }
+		case M_GRPDROP: {
+			sig = "group.unref|items";
+			LIB((((metatype *) objs[grpo].ptr)->unref(), 0));
+			release(grpo);
 			break; }
 		}
 		if (!checkall()) return false;
@@ -925,6 +1052,18 @@ struct MetaSys : World {
 			Obj &b = objs[o];
 			if (!b.handles) { *counter(o) = 1; b.phantom = 0; b.handles = 1; ++b.raw; }
 			else { *counter(o) = b.handles; b.phantom = 0; }
+		}
+		if (usable(grpo)) {
+			dstep = "dropping the item group (object #%d)"; darg = grpo;
+			LIB((((metatype *) objs[grpo].ptr)->unref(), 0));
+			release(grpo);
+			if (!checkall()) return false;
+		}
+		if (usable(nodeo)) {
+			dstep = "destroying the node (object #%d)"; darg = nodeo;
+			LIB(mpt::mpt_node_destroy((mpt::node *) objs[nodeo].ptr));
+			release(nodeo);
+			if (!checkall()) return false;
 		}
 		for (int i = 0; i < 2; ++i) if (rbo[i] >= 0) {
 			dstep = "dropping reference array %d"; darg = i;
@@ -957,6 +1096,24 @@ struct MetaSys : World {
 };
 
 // ================================================================= history BFS with drain
+// after the drain nothing the library allocated for the dropped objects may be left (owned sub-objects included).
+// Lazily created library singletons show up once per process: the verdict comes from a repetition on a fresh system.
+template <class Sys>
+static bool quiescent(Run &r, Sys &s, const Vec &v)
+{
+	if (ledger_live() == s.base) { ++C.quiescent; return true; }
+	Counters keep = C;
+	Sys s2(r);
+	bool ok = true;
+	for (size_t i = 1; i < v.size() && ok; ++i) ok = s2.apply((int) v[i]);
+	if (ok) ok = s2.drain();
+	C = keep;
+	if (!ok) return false;
+	size_t now = ledger_live();
+	if (now == s2.base) { ++C.quiescent; return true; }
+	s2.dstep = "all references dropped, %d block(s) left"; s2.darg = (int) (now - s2.base);
+	return s2.fail("leak-at-quiescence", fmt("%zu heap block(s) allocated by the library on behalf of the dropped objects are still allocated after the last reference was dropped", now - s2.base));
+}
 template <class Sys>
 static void explore(Run &r, int depth)
 {
@@ -1001,7 +1158,7 @@ static void explore(Run &r, int depth)
 			++r.transitions;
 			if (!s.apply(op)) continue;
 			std::string c = s.canon();
-			if (!s.drain()) continue;
+			if (!s.drain() || !quiescent(r, s, v)) continue;
 			snap = C;
 			Hash128 h = hash128(c);
 			if (seen.insert(h).second) {
@@ -1030,6 +1187,7 @@ static void replay(Run &r, const Vec &v)
 	}
 	bool ok = s.drain();
 	r.note("drain -> %s", ok ? "all objects destroyed exactly at their last reference" : "STOP");
+	if (ok) { ok = quiescent(r, s, v); r.note("quiescence -> %s", ok ? "no library block left" : "STOP"); }
 }
 
 // ================================================================= refcount primitives
@@ -1095,7 +1253,7 @@ static bool configure(const std::string &job, Tier tier)
 	cfg = Cfg();
 	cfg.name = job;
 	cfg.nslots = 3; cfg.cap = 3; cfg.rawcap = tier == Quick ? 1 : 2;
-	cfg.conv = cfg.cxx = cfg.traits = cfg.clone = true; cfg.reply = cfg.refbuf = cfg.genconv = false;
+	cfg.conv = cfg.cxx = cfg.traits = cfg.clone = true; cfg.reply = cfg.refbuf = cfg.genconv = cfg.inref = cfg.group = cfg.rdops = false;
 	std::vector<OpDef> &o = cfg.ops;
 	int S = cfg.nslots;
 	if (job == "buffer" || job == "buffer:typed") {
@@ -1120,12 +1278,15 @@ static bool configure(const std::string &job, Tier tier)
 	else if (k == "geninfo") cfg.kinds = {K_GENINFO, K_CNT};
 	else if (k == "metabuffer") cfg.kinds = {K_METABUF, K_CNT};
 	else if (k == "rawdata") cfg.kinds = {K_RAW, K_CNT};
+	else if (k == "rawdata-stages") { cfg.kinds = {K_RAW}; cfg.rdops = true; cfg.nslots = S = 2; cfg.cap = 2; cfg.rawcap = 1; cfg.cxx = false; cfg.clone = false; }
 	else if (k == "generic") { cfg.kinds = {K_GENI, K_GENR, K_CNT}; cfg.genconv = true; cfg.depth = tier == Quick ? 3 : 4; }   // every destroyed generic costs an ASan alloc-dealloc-mismatch report
 	else if (k == "cxxtype") cfg.kinds = {K_CXX, K_CNT};
 	else if (k == "stream") cfg.kinds = {K_STREAM, K_CNT};
 	else if (k == "iobuffer") cfg.kinds = {K_IOBUF, K_CNT};
 	else if (k == "reply") { cfg.kinds = {K_REPLY}; cfg.reply = true; cfg.cxx = false; cfg.traits = false; cfg.cap = 2; }
 	else if (k == "refarray") { cfg.kinds = {K_CNT, K_GENINFO}; cfg.refbuf = true; cfg.nslots = S = 2; cfg.cap = 2; cfg.rawcap = 1; cfg.cxx = false; cfg.traits = false; cfg.clone = false; cfg.conv = false; }
+	else if (k == "inputref") { cfg.kinds = {K_STREAM}; cfg.inref = cfg.refbuf = true; cfg.nslots = S = 2; cfg.cap = 2; cfg.rawcap = 1; cfg.cxx = false; cfg.clone = false; cfg.conv = false; }
+	else if (k == "group") { cfg.kinds = {K_CNT, K_CXX}; cfg.group = true; cfg.nslots = S = 2; cfg.cap = 2; cfg.rawcap = tier == Quick ? 1 : 2; cfg.cxx = false; cfg.clone = false; cfg.conv = false; }
 	else if (k == "mixed") { cfg.kinds = {K_GENINFO, K_RAW, K_REPLY, K_CXX}; cfg.cxx = false; cfg.traits = false; cfg.clone = false; }
 	else return false;
 	for (int kind : cfg.kinds) { add_ops(o, M_NEW, S, 0, 0); for (size_t i = o.size() - S; i < o.size(); ++i) o[i].b = kind;
@@ -1138,8 +1299,10 @@ static bool configure(const std::string &job, Tier tier)
 	if (cfg.traits) { add_ops(o, M_RINIT, S, S); add_ops(o, M_RFINI, S, 0); }
 	add_ops(o, M_ADDREF, S, 0); add_ops(o, M_UNREFRAW, 6, 0);
 	if (cfg.clone) add_ops(o, M_CLONE, S, S);
-	if (cfg.reply) { add_ops(o, M_ARM, S, 0); add_ops(o, M_DEFER, S, 0); add_ops(o, M_DREPLY, 2, 3); }
-	if (cfg.refbuf) { add_ops(o, M_RBPUT, S, 0); add_ops(o, M_RBCLONE, 2, 2); add_ops(o, M_RBCLEAR, 2, 0); add_ops(o, M_RBDETACH, 2, 0); add_ops(o, M_RFINI, S, 0); }
+	if (cfg.reply) { add_ops(o, M_ARM, S, 0); add_ops(o, M_DEFER, S, 0); add_ops(o, M_DREPLY, 2, 3); add_ops(o, M_CREPLY, S, 0); }
+	if (cfg.rdops) { add_ops(o, M_RDADVANCE, S, 0); add_ops(o, M_RDMODIFY, S, 0); }
+	if (cfg.group) { add_ops(o, M_NODEASSIGN, S, 0); add_ops(o, M_NODESET, 6, 0); add_ops(o, M_NODEDROP, 1, 0); add_ops(o, M_ADDITEMS, 1, 0); add_ops(o, M_GRPAPPEND, 6, 0); add_ops(o, M_GRPCLEAR, 1, 0); add_ops(o, M_GRPDROP, 1, 0); }
+	if (cfg.refbuf) { add_ops(o, M_RBPUT, S, 0); add_ops(o, M_RBCLONE, 2, 2); add_ops(o, M_RBCLEAR, 2, 0); add_ops(o, M_RBDETACH, 2, 0); if (!cfg.traits) add_ops(o, M_RFINI, S, 0); }
 	return true;
 }
 
@@ -1148,14 +1311,14 @@ void mc_jobs(Tier t, std::vector<std::string> &jobs)
 	jobs.push_back("refcount");
 	jobs.push_back("buffer");
 	jobs.push_back("buffer:typed");
-	for (const char *k : {"counting", "geninfo", "metabuffer", "rawdata", "iobuffer", "generic", "cxxtype", "stream", "reply", "refarray", "mixed"}) jobs.push_back(std::string("meta:") + k);
+	for (const char *k : {"counting", "geninfo", "metabuffer", "rawdata", "rawdata-stages", "iobuffer", "generic", "cxxtype", "stream", "reply", "refarray", "inputref", "group", "mixed"}) jobs.push_back(std::string("meta:") + k);
 }
 
 static void flush_counters(Run &r)
 {
 	r.count("nontrivial", C.nontrivial); r.count("refused", C.refused); r.count("at_counter_limit", C.limit); r.count("held_reference_replaced", C.replaced);
 	r.count("op_on_shared_object", C.shared_op); r.count("transitions_with_destroyed_object", C.destroyed); r.count("clone_of_nonclonable", C.nonclonable);
-	r.count("cxx_assign_unretainable_clears_target(not flagged)", C.cleared); r.count("spurious_refusals(not flagged)", C.spurious); r.count("states_drained_to_quiescence", C.drained); r.count("refused_write_on_shared_buffer", C.refused_shared); r.count("clone_between_different_content_traits", C.traits_mismatch);
+	r.count("cxx_assign_unretainable_clears_target(not flagged)", C.cleared); r.count("spurious_refusals(not flagged)", C.spurious); r.count("states_drained_to_quiescence", C.drained); r.count("refused_write_on_shared_buffer", C.refused_shared); r.count("clone_between_different_content_traits", C.traits_mismatch); r.count("replies_through_held_context_checked", C.reply_checked); r.count("group_items_taken", C.group_items); r.count("drained_states_with_no_block_left", C.quiescent);
 	r.count("alloc_dealloc_mismatch_reports(out of scope, not flagged)", g_mismatch);
 }
 
@@ -1170,7 +1333,7 @@ void mc_explore(Run &r, const std::string &job)
 		return;
 	}
 	if (!configure(job, r.tier)) { r.incomplete("unknown job " + job); return; }
-	for (const char *k : {"held_reference_replaced", "at_counter_limit", "refused", "transitions_with_destroyed_object", "states_drained_to_quiescence", "op_on_shared_object", "clone_of_nonclonable"}) r.require(k);
+	for (const char *k : {"held_reference_replaced", "at_counter_limit", "refused", "transitions_with_destroyed_object", "states_drained_to_quiescence", "op_on_shared_object", "clone_of_nonclonable", "replies_through_held_context_checked", "group_items_taken", "drained_states_with_no_block_left"}) r.require(k);
 	if (job.compare(0, 6, "buffer") == 0) { r.require("refused_write_on_shared_buffer"); if (job != "buffer") r.require("clone_between_different_content_traits"); explore<BufSys>(r, cfg.depth); } else explore<MetaSys>(r, cfg.depth);
 	flush_counters(r);
 }
